@@ -45,6 +45,17 @@ pub struct Server {
     pub storage: RwLock<Option<Arc<RwLock<ServerStorage>>>>,
     /// every request that reached the server, in order: (device, request kind)
     pub trace: StdMutex<Vec<(String, String)>>,
+    /// after every request: (device, kind, request details, server logs as commit lists)
+    pub snaps: StdMutex<Vec<Snap>>,
+    pub record_snaps: std::sync::atomic::AtomicBool,
+}
+
+pub struct Snap {
+    pub device: String,
+    pub kind: String,
+    pub details: String,
+    pub ok: bool,
+    pub logs: std::collections::BTreeMap<String, Vec<[u8; 32]>>,
 }
 
 impl Server {
@@ -59,10 +70,36 @@ impl Server {
         } else {
             BackendTarget::FileSystem(paths)
         };
-        Arc::new(Server { target, account_id, storage: RwLock::new(None), trace: StdMutex::new(vec![]) })
+        Arc::new(Server { target, account_id, storage: RwLock::new(None), trace: StdMutex::new(vec![]), snaps: StdMutex::new(vec![]), record_snaps: std::sync::atomic::AtomicBool::new(false) })
     }
     pub async fn account(&self) -> Option<Arc<RwLock<ServerStorage>>> {
         self.storage.read().await.clone()
+    }
+    pub async fn log_leaves(&self) -> std::collections::BTreeMap<String, Vec<[u8; 32]>> {
+        use sos_core::events::EventLog;
+        use sos_sync::StorageEventLogs;
+        let mut m = std::collections::BTreeMap::new();
+        if let Some(st) = self.account().await {
+            let st = st.read().await;
+            if let Ok(l) = st.identity_log().await { m.insert("identity".to_string(), l.read().await.tree().leaves().unwrap_or_default()); }
+            if let Ok(l) = st.account_log().await { m.insert("account".to_string(), l.read().await.tree().leaves().unwrap_or_default()); }
+            if let Ok(l) = st.device_log().await { m.insert("device".to_string(), l.read().await.tree().leaves().unwrap_or_default()); }
+            if let Ok(l) = st.file_log().await { m.insert("files".to_string(), l.read().await.tree().leaves().unwrap_or_default()); }
+            if let Ok(fs) = st.folder_details().await {
+                for s in fs.iter() {
+                    if let Ok(l) = st.folder_log(s.id()).await {
+                        m.insert(format!("folder:{}", s.id()), l.read().await.tree().leaves().unwrap_or_default());
+                    }
+                }
+            }
+        }
+        m
+    }
+    pub async fn snap(&self, device: &str, kind: &str, details: String, ok: bool) {
+        if self.record_snaps.load(std::sync::atomic::Ordering::SeqCst) {
+            let logs = self.log_leaves().await;
+            self.snaps.lock().unwrap().push(Snap { device: device.to_string(), kind: kind.to_string(), details, ok, logs });
+        }
     }
 }
 
@@ -145,8 +182,11 @@ impl SyncClient for DirectClient {
         self.enter("sync").await;
         let a = self.acct().await?;
         let mut w = a.write().await;
-        let (packet, _outcome) =
-            server_helpers::sync_account::<_, SrvErr>(packet, &mut *w).await.map_err(net_err)?;
+        let details = describe_packet(&packet);
+        let res = server_helpers::sync_account::<_, SrvErr>(packet, &mut *w).await;
+        drop(w);
+        self.server.snap(&self.device, "sync", details, res.is_ok()).await;
+        let (packet, _outcome) = res.map_err(net_err)?;
         Ok(packet)
     }
     async fn scan(&self, request: ScanRequest) -> Result<ScanResponse, Self::Error> {
@@ -165,10 +205,61 @@ impl SyncClient for DirectClient {
         self.enter("patch").await;
         let a = self.acct().await?;
         let mut w = a.write().await;
-        let (resp, _outcome) =
-            server_helpers::event_patch::<_, SrvErr>(request, &mut *w).await.map_err(net_err)?;
+        let details = format!(
+            "log={} commit={} proof={}/{} patch={}",
+            log_name(&request.log_type),
+            request.commit.map(|c| hex::encode(c.as_ref())).unwrap_or("-".into()),
+            hex::encode(request.proof.root.as_ref()),
+            request.proof.length,
+            request.patch.iter().map(|r| hex::encode(r.commit().as_ref())).collect::<Vec<_>>().join(";")
+        );
+        let res = server_helpers::event_patch::<_, SrvErr>(request, &mut *w).await;
+        drop(w);
+        let applied = matches!(&res, Ok((r, _)) if matches!(r.checked_patch, sos_core::events::patch::CheckedPatch::Success(_)));
+        self.server.snap(&self.device, "patch", format!("{details} applied={}", applied as u8), res.is_ok()).await;
+        let (resp, _outcome) = res.map_err(net_err)?;
         Ok(resp)
     }
+}
+
+pub fn log_name(t: &sos_core::events::EventLogType) -> String {
+    use sos_core::events::EventLogType as T;
+    match t {
+        T::Identity => "identity".into(),
+        T::Account => "account".into(),
+        T::Device => "device".into(),
+        T::Files => "files".into(),
+        T::Folder(id) => format!("folder:{id}"),
+    }
+}
+
+fn describe_packet(p: &SyncPacket) -> String {
+    use sos_sync::MaybeDiff;
+    let mut parts = vec![];
+    macro_rules! one {
+        ($name:expr, $d:expr) => {
+            match $d {
+                Some(MaybeDiff::Diff(d)) => parts.push(format!(
+                    "{}:diff:{}/{}:{}",
+                    $name,
+                    hex::encode(d.checkpoint.root.as_ref()),
+                    d.checkpoint.length,
+                    d.patch.records().iter().map(|r| hex::encode(r.commit().as_ref())).collect::<Vec<_>>().join(";")
+                )),
+                Some(MaybeDiff::Compare(_)) => parts.push(format!("{}:compare", $name)),
+                None => {}
+            }
+        };
+    }
+    one!("identity", &p.diff.identity);
+    one!("account", &p.diff.account);
+    one!("device", &p.diff.device);
+    one!("files", &p.diff.files);
+    for (id, d) in &p.diff.folders {
+        let name = format!("folder:{id}");
+        one!(name, &Some(d.clone()));
+    }
+    parts.join(",")
 }
 
 pub struct Bridge {
